@@ -62,6 +62,14 @@ CHECKS['C05'] = dict(level='model_checking', engine='statesearch',
    technique='explicit-state BFS over membership histories built with the real record builders (real key material), abstract-state dedup; per step every account view is rebuilt from the raw log and an independent attacker-closure over all encrypted-key blobs is computed; crafted rotations; real encrypted tree content per key generation',
    text='All histories (depth 4/3/3 quick, 6/5/4 thorough from three seed histories) over join-by-request, open-invite join, direct add, removal with rotation, leave request, invite revoke with rotation, stand-alone rotation, re-add and re-join are produced with each actor building its record from its own validating view; after every step every pool account rebuilds its view from the raw log: members must hold every read-key generation (equal to the owner view), non-members must not be able to derive - by their own private key or any invite key they held, closed under the old-key chain - any generation introduced since they lost access; rotation recipients are compared with the reference; encrypted tree content is written / read / scanned in storage under each generation.',
    note='read keys only (not metadata keys); generations exposed by a still-live open invite are excused by design; trees mostly over in-memory storage, scripted histories on real any-store', ref='5 C05')
+CHECKS['C10'] = dict(level='fault_enumeration', engine='faultstore',
+   technique='exhaustive enumeration of every storage-call boundary (begin, insert/upsert/update/delete, collection/index creation, commit) crossed by every workload operation on a wrapped real any-store database: crash image (copy of the database files, reopened) and injected error (live object vs storage, retry) at each boundary',
+   text='Each of 10 operations (space create, eager and deferred tree create, local add, local snapshot add, add refused by the validator, remote add of two changes, remote add forcing a rebuild from storage, ACL record add, tree delete) is run fault-free from a fault-free predecessor to learn its boundary list and before/after dumps; then every boundary is exercised as a crash image - the durable dump must equal before or after and reopen to a structurally valid space / tree / ACL - and as an injected error - the durable dump must equal before (or after with success), the live object must agree with storage, and the same input applied again must yield the fault-free result.',
+   note='SQLite atomic commit trusted (images contain whole transactions); the wall-clock insert stamp and apply sequence numbers are masked in dump comparisons; savepoints are not durability boundaries', ref='5 C10')
+CHECKS['C03'] = dict(level='model_checking', engine='statesearch+mutate',
+   technique='explicit-state BFS over ACL histories built with real record builders (counter-signed log feeding validating and non-validating lists); every history replayed through 5 build modes x prefixes x observers with full projection comparison; bounded exhaustive mutation of the last record of every history',
+   text='All histories to depth 3 (4 thorough) from the root and 1 (2) from four scripted seed histories over every record kind incl. batch records are replayed as: one-by-one AddRawRecord, AddRawRecords whole and in every 2-split, a non-validating (network-acceptor) list with keep-only-ours decoding, lists built over in-memory and real any-store storages (also with perturbed order index / row order to force the PrevId fallback), and prefix replicas catching up from RecordsAfter; for owner / member / removed member / node observers all must agree on head, permissions, statuses, invites, requests, key ids, options and own key visibility. Every byte / truncation / id / prev-id / signature / identity / acceptor mutation of the last record must be rejected leaving projection and storage unchanged.',
+   note='builder timestamps and nonces are random: only semantics are compared; byte sweeps run on the seeds, short histories and one history per record kind', ref='5 C03')
 NOT_YET = 'check not built yet (work in progress, see DESIGN.md section 10)'
 m = {
  'version': 1,
